@@ -31,11 +31,11 @@ var (
 
 func twins(t *testing.T) {
 	twinOnce.Do(func() {
-		twinA, twinErr = t38.Start(t38.Opts{HTTP: true})
+		twinA, twinErr = t38.Start(t38.Opts{HTTP: true, DevMode: true})
 		if twinErr != nil {
 			return
 		}
-		twinB, twinErr = t38.Start(t38.Opts{HTTP: true})
+		twinB, twinErr = t38.Start(t38.Opts{HTTP: true, DevMode: true})
 		if twinErr != nil {
 			return
 		}
